@@ -1,25 +1,35 @@
 -- expect: 3
 -- expect: 3.5
--- expect: 2
--- expect: 1024	0.5	1
+-- expect[jit]: 2
+-- expect[5.3]: 2.0
+-- expect[jit]: 1024	0.5	1
+-- expect[5.3]: 1024.0	0.5	1.0
 -- expect: 1	2	-2	-1
--- expect: 1.5	1
--- expect: -4	512
--- expect: 5
+-- expect[jit]: 1.5	1
+-- expect[5.3]: 1.5	1.0
+-- expect[jit]: -4	512
+-- expect[5.3]: -4.0	512.0
+-- expect[jit]: 5
+-- expect[5.3]: 5.0
 -- expect: 11	12	4
 -- expect: 1020
 -- expect: true	true	false	true	false
--- expect: 1000	0.001	16	0.5	5	3	255	100
+-- expect[jit]: 1000	0.001	16	0.5	5	3	255	100
+-- expect[5.3]: 1000.0	0.001	16	0.5	5.0	3.0	255	100.0
 -- expect: 3	-4	4	-3	4
 -- expect: 5	-1
 -- expect: 1	-1
--- expect: 3	0.7
--- expect: -3	-0.7
+-- expect[jit]: 3	0.7
+-- expect[5.3]: 3.0	0.7
+-- expect[jit]: -3	-0.7
+-- expect[5.3]: -3.0	-0.7
 -- expect: true	false	false
 -- expect: 5	3	3
 -- expect: 6	1
--- expect: 5	10	-5	12
--- expect: 4	1.5	256
+-- expect[jit]: 5	10	-5	12
+-- expect[5.3]: 5.0	10	-5	12.0
+-- expect[jit]: 4	1.5	256
+-- expect[5.3]: 4.0	1.5	256.0
 -- expect: true
 -- expect: 20	14	37
 -- expect: true	true
